@@ -1,6 +1,6 @@
 INIT Init
 NEXT Next
-CONSTANT Randomized = FALSE
-CONSTANT Family = "single"
+CONSTANT Randomized = TRUE
+CONSTANT Family = "rows"
 INVARIANT Emit
 CHECK_DEADLOCK FALSE
